@@ -49,7 +49,7 @@ type frame struct {
 	loops   map[*ssa.BasicBlock]*loopInfo
 	inLoop  map[*ssa.BasicBlock][]*loopInfo
 	depth   int
-	dynOrd  int
+	dynIdx  map[*ssa.CallCommon]int
 	rangeOf map[ssa.Value]*rangeInfo
 	panics  []Term // guards under which the function panics explicitly (maypanic)
 	allocBudget func(in ssa.Instruction, g Term, cells Term)
@@ -150,6 +150,7 @@ func (f *frame) set(v ssa.Value, t Term) {
 	t.Sort = f.vc.tt.sort(v.Type())
 	n := f.name(v)
 	f.vc.cmd(fmt.Sprintf("(define-fun %s () %s %s)", n, t.Sort, t.S))
+	registerCtor(n, t.S)
 	f.vals[v] = Term{n, t.Sort}
 }
 
@@ -375,6 +376,9 @@ func (f *frame) loopMods(li *loopInfo) (keys map[string]bool, all bool, allocs b
 					continue
 				}
 				sp, callee := f.calleeSpec(cm)
+				if ds := f.dynSpec(cm); ds != nil {
+					sp = ds
+				}
 				if sp != nil && sp.Inline && callee != nil {
 					all = true // conservative
 					continue
